@@ -2,10 +2,27 @@ package index
 
 import (
 	"encoding/binary"
+	"errors"
 	"io"
+	"math"
 )
 
+var MetadataTooLargeErr error = errors.New("Metadata is limited to 65535 entries with keys of up to 255 bytes and values of up to 65535 bytes")
+
 type Metadata map[string]string
+
+// The limits of the encoding used by save: entry count and value length are written as uint16, key length as uint8
+func (this Metadata) Validate() error {
+	if len(this) > math.MaxUint16 {
+		return MetadataTooLargeErr
+	}
+	for k, v := range this {
+		if len(k) > math.MaxUint8 || len(v) > math.MaxUint16 {
+			return MetadataTooLargeErr
+		}
+	}
+	return nil
+}
 
 func (this Metadata) bytesSize() uint64 {
 	var n int = 0
